@@ -673,7 +673,8 @@ type rawWay struct {
 type rawMember struct {
 	isWay bool
 	ref   int64
-	role  int // 0 outer 1 inner 2 other
+	role  int  // 0 outer 1 inner 2 other
+	rel   bool // a relation member (when !isWay)
 }
 type piece struct {
 	ring, start, edges int
@@ -783,7 +784,7 @@ func cutScene(rng *rand.Rand, sc []gtPoly, cuts func(ring, n int) int) *input {
 		in.ways = append(in.ways, w)
 	}
 	for _, i := range rng.Perm(len(all)) {
-		in.members = append(in.members, rawMember{true, in.ways[i].id, all[i].role})
+		in.members = append(in.members, rawMember{isWay: true, ref: in.ways[i].id, role: all[i].role})
 		in.pieces = append(in.pieces, all[i].pc)
 	}
 	rng.Shuffle(len(in.nodes), func(i, j int) { in.nodes[i], in.nodes[j] = in.nodes[j], in.nodes[i] })
@@ -853,6 +854,9 @@ func expectedOrients(in *input) []int64 {
 	rings, _ := sceneRings(in.spec)
 	out := make([]int64, len(in.pieces))
 	for i, pc := range in.pieces {
+		if i < len(in.members) && !in.members[i].isWay {
+			continue // node / relation members are never annotated
+		}
 		s := int64(sgn(area2(rings[pc.ring])))
 		if pc.rev {
 			s = -s
@@ -912,6 +916,9 @@ func (in *input) build(src int, orients []int64, mask ...bool) *osm.OSM {
 		t := osm.TypeWay
 		if !m.isWay {
 			t = osm.TypeNode
+			if m.rel {
+				t = osm.TypeRelation
+			}
 		}
 		mem := osm.Member{Type: t, Ref: m.ref, Role: roleName(m.role), Orientation: orb.Orientation(orients[i])}
 		if in.prefill { // version and changeset of the current way version already on the member
@@ -1059,10 +1066,18 @@ type annotObs struct {
 func doAnnot(in *input, orients []int64) annotObs {
 	o := in.build(1, orients)
 	r := o.Relations[0]
+	hist := &osm.OSM{Ways: o.Ways}
+	for _, m := range in.members { // histories of the node / relation members
+		if !m.isWay && !m.rel {
+			hist.Nodes = append(hist.Nodes, &osm.Node{ID: osm.NodeID(m.ref), Version: 1, Visible: true, Lon: 1.5, Lat: 2.5})
+		} else if m.rel {
+			hist.Relations = append(hist.Relations, &osm.Relation{ID: osm.RelationID(m.ref), Version: 1, Visible: true})
+		}
+	}
 	err := fmt.Errorf("panic")
 	guard(func() {
 		err = annotate.Relations(context.Background(), osm.Relations{r},
-			(&osm.OSM{Ways: o.Ways}).HistoryDatasource(), annotate.Threshold(time.Hour))
+			hist.HistoryDatasource(), annotate.Threshold(time.Hour))
 	})
 	a := annotObs{in: orients, ok: err == nil}
 	for _, m := range r.Members {
@@ -1336,6 +1351,57 @@ func mixedMask(rng *rand.Rand, in *input, pattern int) []bool {
 	return m
 }
 
+// withExtraMembers: the same relation with node and relation members (all roles) interleaved
+// before / between / after the way members - the normal layout of boundary relations
+// (admin_centre or label node first, subarea relations).  At least one non-way member precedes the
+// first way member.  Their pieces are dummies; they must never get an orientation.
+func withExtraMembers(rng *rand.Rand, in *input) *input {
+	m := *in
+	m.members, m.pieces = nil, nil
+	extra := func(k int) rawMember {
+		return rawMember{isWay: false, rel: rng.Intn(2) == 0, ref: int64(770000 + k), role: rng.Intn(3)}
+	}
+	k := 0
+	for n := 1 + rng.Intn(2); n > 0; n-- { // before the first way
+		m.members = append(m.members, extra(k))
+		m.pieces = append(m.pieces, piece{})
+		k++
+	}
+	for i, mm := range in.members {
+		m.members = append(m.members, mm)
+		m.pieces = append(m.pieces, in.pieces[i])
+		if rng.Intn(3) == 0 || (i == len(in.members)-1 && rng.Intn(2) == 0) { // between / after
+			m.members = append(m.members, extra(k))
+			m.pieces = append(m.pieces, piece{})
+			k++
+		}
+	}
+	return &m
+}
+
+// mixedMembersCase: Convert from annotated way nodes (no node objects: a node member without a
+// node object yields no feature of its own) and annotate.Relations; orientations compared member
+// by member, by index.
+func mixedMembersCase(rng *rand.Rand, in *input) *wire.Case {
+	m := withExtraMembers(rng, in)
+	n := len(m.members)
+	exp := expectedOrients(m)
+	stale := make([]int64, n)
+	for i := range stale {
+		if m.members[i].isWay {
+			stale[i] = int64(rng.Intn(3) - 1)
+		}
+	}
+	runs := []runObs{doRun(m, 1, false, zeros(n)), doRun(m, 1, false, exp), doRun(m, 1, true, partial(rng, exp))}
+	annots := []annotObs{doAnnot(m, zeros(n)), doAnnot(m, stale)}
+	m.prefill = true
+	annots = append(annots, doAnnot(m, zeros(n)))
+	m.prefill = false
+	c := sceneCase(m, runs, annots)
+	c.Class = "mixed_members"
+	return c
+}
+
 // a complete scene case: Convert runs + annotate runs
 func specCase(rng *rand.Rand, in *input) *wire.Case {
 	n := len(in.members)
@@ -1406,14 +1472,14 @@ func malformed(rng *rand.Rand, in *input) *input {
 				w.nodes = append(w.nodes, m.nodes[rng.Intn(len(m.nodes))].id)
 			}
 			m.ways = append(m.ways, w)
-			m.members = append(m.members, rawMember{true, w.id, rng.Intn(2)})
+			m.members = append(m.members, rawMember{isWay: true, ref: w.id, role: rng.Intn(2)})
 		case 7: // a way loses its nodes / keeps one
 			i := rng.Intn(len(m.ways))
 			m.ways[i].nodes = m.ways[i].nodes[:rng.Intn(2)]
 		case 8: // two nodes coincide: rings touch
 			m.nodes[rng.Intn(len(m.nodes))].p = m.nodes[rng.Intn(len(m.nodes))].p
 		case 9: // a node member
-			m.members = append(m.members, rawMember{false, m.nodes[rng.Intn(len(m.nodes))].id, rng.Intn(3)})
+			m.members = append(m.members, rawMember{isWay: false, ref: m.nodes[rng.Intn(len(m.nodes))].id, role: rng.Intn(3)})
 		}
 	}
 	return m
@@ -1784,7 +1850,7 @@ func combCase(rng *rand.Rand, J int, cuts []int) *wire.Case {
 		w := rawWay{id: int64(100 + k), nodes: ids}
 		in.ways = append(in.ways, w)
 		// prepend: the first piece is the last member
-		in.members = append([]rawMember{{true, w.id, 0}}, in.members...)
+		in.members = append([]rawMember{{isWay: true, ref: w.id, role: 0}}, in.members...)
 		in.pieces = append([]piece{pc}, in.pieces...)
 	}
 	m := len(in.members)
@@ -1926,7 +1992,7 @@ func genMulti(rng *rand.Rand, ps preset, e emb, idMode int) *multi {
 					if !fwd {
 						pc = piece{ri, pos[l[len(l)-1]], len(l) - 1, true}
 					}
-					mems = append(mems, mem{rawMember{true, wd.id, roles[ri]}, pc})
+					mems = append(mems, mem{rawMember{isWay: true, ref: wd.id, role: roles[ri]}, pc})
 				}
 			}
 			rng.Shuffle(len(mems), func(a, b int) { mems[a], mems[b] = mems[b], mems[a] })
@@ -2219,7 +2285,7 @@ func main() {
 	a := wire.ParseArgs()
 	rng := wire.Rng(a.Seed)
 	w := wire.NewWriter("C16", a.Seed, a.Tier)
-	w.Rule = "coordinate embedding: scene integer coordinates (x,y) are fed as lon = x*s+lon0, lat = y*s+lat0 for s in {1, 1e-7} and offsets {0, far from the origin}; observations are mapped back through the exact table of fed floats (vertex identities), scenes are used only when the generator's exact margins guarantee that float signs equal integer signs; families: big / tiny (holes of a few steps) / micro (outers of a few steps) / null_island (a vertex at (1,0), (0,1) or (1,1) steps). multi_relation: three relations in ONE Convert call sharing member ways (two neighbouring polygons sharing their spoke ways, which run in opposite directions in the two; a third relation using the ways of the first as inner ring), each with its own ground truth and orientations; history: annotate.Relations over two versions of a relation between which member ways were reversed (new way version), every version judged against the ways current at it; ids: node / way / relation ids also drawn from {negative, 0, around 2^40, near +-2^63} (opaque in the model). interlocked: a C-shaped and an L-shaped outer, non-nested, with overlapping bounding boxes and holes lying inside the other outer's box (assertGeneral: exact no-touching, non-nesting, strict containment); scenes: 1-4 integer star-shaped outers in disjoint grid cells, 0-2 star-shaped holes each in disjoint sub-cells, strict containment (even-odd rule, no touching, AND kernel point + axis-parallel reachability of every hole vertex as in Geo/Jordan.v) / simplicity / disjointness asserted exactly; every ring cut into 1..6 pieces (all counts cycle), random reversals, shuffled members, ways, nodes and ids; each scene = 6 Convert runs (node map / annotated way nodes / both; no, truthful, partial truthful orientations; IncludeInvalidPolygons) + 2 annotate.Relations runs. malformed: a scene with 1-3 defects (missing way/member/node, node at (0,0), duplicate member, role change, dangling way, degenerate way, touching rings, node member), judged model=implementation only. join: random segment soups over a 12x12 pool plus valid cuts; contains / addmp: random rings. distinct = distinct token streams; trivial = empty soups."
+	w.Rule = "coordinate embedding: scene integer coordinates (x,y) are fed as lon = x*s+lon0, lat = y*s+lat0 for s in {1, 1e-7} and offsets {0, far from the origin}; observations are mapped back through the exact table of fed floats (vertex identities), scenes are used only when the generator's exact margins guarantee that float signs equal integer signs; families: big / tiny (holes of a few steps) / micro (outers of a few steps) / null_island (a vertex at (1,0), (0,1) or (1,1) steps). multi_relation: three relations in ONE Convert call sharing member ways (two neighbouring polygons sharing their spoke ways, which run in opposite directions in the two; a third relation using the ways of the first as inner ring), each with its own ground truth and orientations; history: annotate.Relations over two versions of a relation between which member ways were reversed (new way version), every version judged against the ways current at it; ids: node / way / relation ids also drawn from {negative, 0, around 2^40, near +-2^63} (opaque in the model). mixed_members: the relation also has node and relation members of every role before / between / after its way members (boundary layout), orientations compared by member index; interlocked: a C-shaped and an L-shaped outer, non-nested, with overlapping bounding boxes and holes lying inside the other outer's box (assertGeneral: exact no-touching, non-nesting, strict containment); scenes: 1-4 integer star-shaped outers in disjoint grid cells, 0-2 star-shaped holes each in disjoint sub-cells, strict containment (even-odd rule, no touching, AND kernel point + axis-parallel reachability of every hole vertex as in Geo/Jordan.v) / simplicity / disjointness asserted exactly; every ring cut into 1..6 pieces (all counts cycle), random reversals, shuffled members, ways, nodes and ids; each scene = 6 Convert runs (node map / annotated way nodes / both; no, truthful, partial truthful orientations; IncludeInvalidPolygons) + 2 annotate.Relations runs. malformed: a scene with 1-3 defects (missing way/member/node, node at (0,0), duplicate member, role change, dangling way, degenerate way, touching rings, node member), judged model=implementation only. join: random segment soups over a 12x12 pool plus valid cuts; contains / addmp: random rings. distinct = distinct token streams; trivial = empty soups."
 	nscene, nmal, njoin, ncont, naddmp := 260, 120, 500, 500, 150
 	if a.Tier == "thorough" {
 		nscene, nmal, njoin, ncont, naddmp = 5000, 2500, 12000, 12000, 3000
@@ -2369,6 +2435,18 @@ func main() {
 	} else if a.Scale <= 1.5 {
 		w.Add(combCase(rng, 128, []int{0}))
 		w.Add(combCase(rng, 128, []int{0, 700, 1500}))
+	}
+	// 1a3. relations with node and relation members interleaved with the way members
+	nmix := sc(60)
+	if a.Tier == "thorough" {
+		nmix = sc(1500)
+	}
+	for i := 0; i < nmix; i++ {
+		base := keep[rng.Intn(len(keep))]
+		if base.noAnnot {
+			continue
+		}
+		w.Add(mixedMembersCase(rng, base))
 	}
 	// 1b. several relations sharing ways in one Convert call
 	nmulti, nhist := sc(60), sc(60)
